@@ -255,12 +255,40 @@ def pt_obj(repo, cls, mpos, tin, tout):
     return mkobj(repo, cls, **fields)
 
 
-def build_get_mpo(rank, with_in, with_out, transformed=True, cls='process_tensor.SimpleProcessTensor'):
+def simple_pt_real(ip, repo, tin, tout):
+    """SimpleProcessTensor built by its REAL constructor (so that fields a refactoring adds exist); only the
+    base-class constructor (dimension checks, trace vectors) is replaced by its symbolic outcome"""
+    cls = repo.resolve('process_tensor.SimpleProcessTensor')
+    if cls is None:
+        raise Unsupported('contract target missing: SimpleProcessTensor')
+
+    @model
+    def m_base_init(ip2, args, kw):
+        o = args[0]
+        o.fields.update(dict(_hs_dim=tnnorm.TDim('hs'), _dt=None, _rho_dim=tnnorm.TDim('hs**2'), _transform_in=tin, _transform_out=tout,
+                             _trace=TArr.sym('tr', 1), _trace_square=TArr.sym('trsq', 1), _trace_in=TArr.sym('tr_in', 1),
+                             _trace_out=TArr.sym('tr_out', 1), name=None, description=None))
+    ip.registry.models['process_tensor.BaseProcessTensor.__init__'] = m_base_init
+    return ip.call(cls, [tnnorm.TDim('hs')], {'transform_in': tin, 'transform_out': tout})
+
+
+def build_get_mpo(rank, with_in, with_out, transformed=True, cls='process_tensor.SimpleProcessTensor', history=False):
     def build(ip, repo):
         t = TArr.sym('t', rank)
         tin = TArr.sym('Tin', 2) if with_in else None
         tout = TArr.sym('Tout', 2) if with_out else None
-        o = pt_obj(repo, cls, [t], tin, tout)
+        if cls.endswith('SimpleProcessTensor'):
+            o = simple_pt_real(ip, repo, tin, tout)
+            setm = repo.resolve(cls + '.set_mpo_tensor')
+            getm = repo.resolve(cls + '.get_mpo_tensor')
+            if history:
+                # the step is read, replaced by another tensor, and read again: the second read must see the new tensor
+                ip.call(setm, [o, 0, TArr.sym('t_old', rank)], {})
+                ip.call(getm, [o, 0], {})
+                ip.call(getm, [o, 0, False], {})
+            ip.call(setm, [o, 0, t], {})
+        else:
+            o = pt_obj(repo, cls, [t], tin, tout)
         return [o, 0] + ([] if transformed else [False]), {}, {'rank': rank, 'in': with_in, 'out': with_out, 'transformed': transformed}
     return build
 
@@ -364,6 +392,10 @@ def targets_pt(prop='C03'):
                                         build_get_mpo(rank, wi, wo, cls=cls), check_get_mpo, prop, registry=R))
             T.append(WireTarget('pt/get_mpo_tensor[rank=%d,untransformed]' % rank, cls + '.get_mpo_tensor',
                                 build_get_mpo(rank, True, True, transformed=False, cls=cls), check_get_mpo, prop, registry=R))
+            for tr in (True, False):
+                T.append(WireTarget('pt/get_mpo_tensor[rank=%d,%s,after the step was read and replaced]' % (rank, 'transformed' if tr else 'untransformed'),
+                                    cls + '.get_mpo_tensor', build_get_mpo(rank, True, True, transformed=tr, cls=cls, history=True), check_get_mpo, prop,
+                                    registry=R, replay=lambda ob: {'func': 'set_after_get', 'inputs': {'obligation': ob['name']}}))
     for ranks in ((4,), (3,), (4, 4), (3, 4), (4, 3, 4)):
         T.append(WireTarget('pt/compute_caps%s' % (list(ranks),), 'process_tensor.SimpleProcessTensor.compute_caps',
                             build_caps_simple(ranks), check_caps_simple, prop, registry=R))
